@@ -33,6 +33,15 @@ class TaggedScalar(er.CustomScalar):
         v = super().parse_literal(ast)
         return f"{self.tag}<{v}" if isinstance(v, str) else v
 
+class CountingScalar(er.CustomScalar):
+    """a STATEFUL scalar implementation registered as a class (the library instantiates it): every schema name gets its own
+    instance, also when one class is decorated for two names at once"""
+    def __init__(self): self.n = 0
+    def coerce_output(self, v):
+        v = super().coerce_output(v)
+        self.n += 1
+        return f"{v}#{self.n}" if isinstance(v, str) else v
+
 class MarkDirective:
     """stateful, bundle-specific directive instance (same class under every schema name)"""
     def __init__(self, tag): self.tag = tag
@@ -48,7 +57,12 @@ def registrations(bundle):
     acts = []
     for t in model["types"]:
         if t["kind"] == "scalar" and t["name"] not in BUILTIN_SCALARS:
-            acts.append(lambda t=t: Scalar(t["name"], schema_name=name)(TaggedScalar(tag)))
+            if bundle.get("counting_scalar"):
+                # registered as a CLASS: alone by a single decorator, co-resident by STACKED decorators together with the bundle
+                # sharing its SDL (done before the interleaving starts, see explore)
+                if not bundle.get("stacked_done"): acts.append(lambda t=t: Scalar(t["name"], schema_name=name)(CountingScalar))
+            else:
+                acts.append(lambda t=t: Scalar(t["name"], schema_name=name)(TaggedScalar(tag)))
     from tartiflette import Directive
     acts.append(lambda: Directive("mark", schema_name=name)(MarkDirective(tag)))
     for coord, spec in renv["resolvers"].items():
@@ -176,7 +190,21 @@ async def explore(tier, seed):
             sgenv = bundles[0]["env"]
             bundles[1]["env"] = json.loads(json.dumps(sgenv).replace("B0/", "B1/"))
         for i, bd in enumerate(bundles): bd["name"] = f"c{seed}_{ci}_{next(uid)}_{i}"
+        shared_pair = bundles[1]["model"] is bundles[0]["model"]
+        if shared_pair and rng.random() < 0.6:
+            bundles[0]["counting_scalar"] = bundles[1]["counting_scalar"] = True
+        if rng.random() < 0.3:
+            # one of the names is the library's DEFAULT schema name (what is registered there belongs to it alone)
+            from tartiflette.schema.registry import SchemaRegistry
+            SchemaRegistry._schemas.pop("default", None)       # (left-overs of an earlier configuration of this run)
+            bundles[rng.randrange(k)]["name"] = "default"
         solo = [alone(bd) for bd in bundles]
+        if bundles[0].get("counting_scalar"):
+            from tartiflette import Scalar as _Scalar
+            for t in bundles[0]["model"]["types"]:
+                if t["kind"] == "scalar" and t["name"] not in BUILTIN_SCALARS:
+                    _Scalar(t["name"], schema_name=bundles[1]["name"])(_Scalar(t["name"], schema_name=bundles[0]["name"])(CountingScalar))
+            bundles[0]["stacked_done"] = bundles[1]["stacked_done"] = True
         # interleave the registration actions of all bundles, cook in a random order (a cook needs its own registrations done)
         acts = []
         for i, bd in enumerate(bundles):
